@@ -36,7 +36,7 @@ man = {
         "add_only": True,
     },
     "engines": [{"name": "lean-proof+correspondence", "path": "/verif/check", "serves_properties": [c["property_id"] for c in checks],
-                 "kind_free_text": "Lean 4 theorems about a hand-written executable model (lean/JT), tied to /repo on every run by differential execution (harness/cmd/corr in-process vs the native Lean driver) plus source extractors that regenerate tables"}],
+                 "kind_free_text": "Lean 4 theorems about a hand-written executable model (lean/JT), tied to /repo on every run by differential execution (harness/cmd/corr in-process vs the native Lean driver) plus source extractors that regenerate tables and a Go->Lean translator (extract golean) that regenerates the frame codec itself, proved equal to the model"}],
     "checks": checks,
     "not_applicable": na,
     "notes": "See DESIGN.md. Known findings: known_findings.json. Repairs of genuine defects are 'fix:' commits in /repo. Seeded breaking changes used to test the checks: seeded/.",
